@@ -200,17 +200,22 @@ def ad_selfcheck(ctx, s, p, var, d_exact):
         ctx.count("oracle_selfcheck_skipped")
         return
     ctx.count("oracle_selfcheck")
-    diff = abs(nd.mid - d_exact.mid)
     tol = (abs(d_exact) + 1) * R.iv.mpf(10) ** -9
-    if not (diff.b <= tol.b):
+
+    def agrees(nd_):
+        # the finite difference must fall inside the AD enclosure (which has width when the default
+        # base e is involved: hull of the float and the true e), up to the truncation tolerance
+        lo = d_exact.a - tol.b
+        hi = d_exact.b + tol.b
+        return (lo <= nd_.mid) and (nd_.mid <= hi)
+    if not agrees(nd):
         # steep second derivative can make the difference quotient itself inaccurate: retry smaller h
         nd2 = R.numdiff(s, p, var, h_exp=50)
-        if nd2 is not None:
-            diff2 = abs(nd2.mid - d_exact.mid)
-            if diff2.b <= tol.b:
-                return
+        if nd2 is not None and agrees(nd2):
+            return
         ctx.count("oracle_selfcheck_failed")
         ctx.hist("oracle_selfcheck_failures", S.show(s)[:120] + " @ " + S.show_point(p) + " d/d" + var)
+        ctx.hist("oracle_selfcheck_failure_cases", json.dumps({"spec": S.to_json(s), "point": S.point_to_json(p), "var": var}))
 
 
 def tree_in_scope(s, pts=None):
